@@ -53,6 +53,12 @@ var kvCorpus = []string{
 	"\t2023-01-01 open Assets:Bank\n",
 	"2023-01-01 open Assets:Bank junk\n",
 	"@accrue\n",
+	"@performance(USD) x\n2023-04-03 \"foo\"\nAssets:A Assets:B 1 CHF\n",
+	"@accrue daily 2023-01-01 2023-12-31 Assets:A,\n2023-04-03 \"foo\"\nAssets:A Assets:B 1 CHF\n",
+	"2023-01-01 open Assets:Bank\n\xc3",
+	"\xe2\x82",
+	"# truncated \xf0\x9f",
+	"\x002023-01-01 open Assets:Bank\n",
 	"@performance(\n",
 }
 
@@ -79,9 +85,19 @@ func TestKVReplaySyntax(t *testing.T) {
 			if err != nil {
 				_ = err.Error() // rendering must not panic
 				var se Error
-				for e := err; e != nil; e = errors.Unwrap(e) {
-					if x, ok := e.(Error); ok {
+				for e := err; e != nil; {
+					x, ok := e.(Error)
+					if !ok {
+						e = errors.Unwrap(e)
+						continue
+					}
+					e = x.Wrapped
+					{
 						se = x
+						if x.Range.Text != text || x.Range.Start < 0 || x.Range.End > len(text) {
+							fmt.Printf("REPLAY-CONFIRMED @cause: input %d %q: an error of the chain (%q) does not point into the input: range [%d,%d) of text %q\n", i, text, x.Message, x.Range.Start, x.Range.End, x.Range.Text)
+							break
+						}
 					}
 				}
 				if se.Range.Text != "" && (se.Range.Text != text || se.Range.Start < 0 || se.Range.End > len(text)) {
@@ -112,6 +128,10 @@ func TestKVReplaySyntax(t *testing.T) {
 			var out bytes.Buffer
 			if err := FormatFile(&out, f); err != nil {
 				fmt.Printf("REPLAY-CONFIRMED @always: input %d %q: formatting a parsed file fails: %v\n", i, text, err)
+				return
+			}
+			if len(f.Directives) == 0 && out.String() != text {
+				fmt.Printf("REPLAY-CONFIRMED @always/gaps: input %d %q: a file without directives is formatted to %q\n", i, text, out.String())
 				return
 			}
 			// the text between the directives survives byte for byte, in order
